@@ -3,7 +3,7 @@
    Results" (Model/Accepts.v over the guards regenerated from emu_sv/sv_backend_impl.py and
    emu_mps/mps_backend_impl.py); `supported b f` = the specification table. *)
 From Coq Require Import ZArith Bool List String.
-From EV Require Import Base.Arith Gen.Guards Gen.SvGuards Model.ConfigGuards Model.Accepts Proofs.AcceptsProofs.
+From EV Require Import Base.Arith Gen.Dispatch Gen.SvGuards Model.DispatchModel Model.Accepts Proofs.AcceptsProofs.
 
 (* Whole finite feature domain (every value of `feat`, 6144 per backend): if the closed boolean
    table check holds for backend b then every accepted feature combination is supported.  ./check
